@@ -15,6 +15,7 @@ import (
 
 type Env struct {
 	u      *Unit
+	softHeader bool // at-call clauses: fall back to the plain lookup when a name is not loop-carried
 	vars   map[string]Val
 	cur    *State
 	old    *State
@@ -204,7 +205,12 @@ func (e *Env) lookupIdent(name string) (Val, bool) {
 		return v, true
 	}
 	if e.fr != nil {
-		if v, ok := e.fr.lookupLocal(name, e.header); ok {
+		v, ok := e.fr.lookupLocal(name, e.header)
+		if !ok && e.header != nil && e.softHeader {
+			// at-call clauses: a variable defined inside the loop body (a range value, say) is not loop-carried
+			v, ok = e.fr.lookupLocal(name, nil)
+		}
+		if ok {
 			if e.fr.lastLookupAddr {
 				// the variable lives in memory (address-taken or named result with defers): read its current value
 				if pt, ok := v.Ty.Underlying().(*types.Pointer); ok {
@@ -826,6 +832,9 @@ func (e *Env) trCall(n *ECall) Val {
 			case *types.Map:
 				dom, _, ks, _ := u.mapHeaps(t)
 				d := sel(u.heapCur(e.cur, dom), a.T)
+				if u.dry == 0 {
+					u.cardFacts(ks, d) // len == 0 exactly for the empty map
+				}
 				return Val{T: u.card(ks, d), S: "Int", Ty: intT}
 			case *types.Basic:
 				return Val{T: app("str_len", a.T), S: "Int", Ty: intT}
